@@ -2,6 +2,12 @@
 
 package fasthttp
 
+import (
+	"bufio"
+	"bytes"
+	"io"
+)
+
 // Thin pass-through wrappers around unexported functions, compiled only with -tags verif.
 // They exist for the verification harness under /verif and add no behaviour.
 
@@ -26,3 +32,51 @@ func VerifNormalizeHeaderKey(b []byte, disableNormalizing bool) []byte {
 	normalizeHeaderKey(c, disableNormalizing)
 	return c
 }
+
+// VerifParseUintBuf exposes parseUintBuf.
+func VerifParseUintBuf(b []byte) (int, int, error) { return parseUintBuf(b) }
+
+// VerifIntErrClass maps the integer/hex parser errors to class names.
+func VerifIntErrClass(err error) string {
+	switch err {
+	case nil:
+		return "nil"
+	case errEmptyInt:
+		return "empty"
+	case errUnexpectedFirstChar:
+		return "firstChar"
+	case errUnexpectedTrailingChar:
+		return "trailing"
+	case errTooLongInt:
+		return "tooLong"
+	case errEmptyHexNum:
+		return "emptyHex"
+	case errTooLargeHexNum:
+		return "tooLarge"
+	case io.EOF:
+		return "eof"
+	}
+	return "other:" + err.Error()
+}
+
+// VerifReadHexInt runs readHexInt on a reader over data and reports how many bytes stay unread.
+func VerifReadHexInt(data []byte, bufSize int) (n int, err error, unread int) {
+	r := bufio.NewReaderSize(bytes.NewReader(data), bufSize)
+	n, err = readHexInt(r)
+	rest, _ := io.ReadAll(r)
+	return n, err, len(rest)
+}
+
+// VerifWriteHexInt runs writeHexInt.
+func VerifWriteHexInt(n int) []byte {
+	var bb bytes.Buffer
+	w := bufio.NewWriter(&bb)
+	if err := writeHexInt(w, n); err != nil {
+		return nil
+	}
+	w.Flush()
+	return bb.Bytes()
+}
+
+// VerifMaxHexIntChars exposes the platform constant.
+const VerifMaxHexIntChars = maxHexIntChars
